@@ -712,6 +712,11 @@ func analyseScanLoop(c *Ctx, rule string, fn *ssa.Function, advObj, evalObj type
 			p.site.context = "other"
 			c.Fail(rule, "scan loop: evaluation happens only on a dead transition or at end of input", p.endPos,
 				fmt.Sprintf("an evaluation is reached on a path that is guarded neither by next == %d nor by the read error", errorState))
+		case p.hasErr && p.pending && p.eofTest && p.end == "return":
+			// end of input, a lexeme pending, and the function returns without asking the automaton what the pending state is
+			c.Fail(rule, "scan loop: a lexeme pending at the end of the input is evaluated on every path", p.endPos,
+				"on a path where the read failed with io.EOF and the loop-carried state is not the start state, the scan function returns without evaluating that state: whether the pending lexeme is a token is decided by something else than the automaton's accepting states (or the lexeme is dropped)",
+				"a specification whose last lexeme, without a final newline, is in a state the extra condition covers, e.g. a // comment at the very end of the file")
 		case p.dead && p.end != "eval" && p.atStart && p.skips == 1 && p.retracts == 0:
 			// a rune that no token starts with is consumed and dropped in the start state (blank discard; the property that
 			// allows it decides which runes): nothing is pending, so there is nothing to evaluate
